@@ -49,12 +49,16 @@ def strings_for(values):
 
 
 def build(values):
+    # two more enums in the same module, declared before and after E (each enum must keep its own strings)
     schema = gql.Schema([
+        gql.enum("Before", ["B_ONE", "B_TWO", "B_THREE", "B_FOUR", "B_FIVE", "B_SIX"]),
         gql.enum("E", values),
+        gql.enum("Zlast", ["Z_ONE", "Z_TWO"]),
         gql.inp("In", [("e", "E")]),
-        gql.obj("Q", [FieldDef("e", "E!"), FieldDef("f", "Int", args=[("a", "E"), ("i", "In")])]),
+        gql.obj("Q", [FieldDef("e", "E!"), FieldDef("f", "Int", args=[("a", "E"), ("i", "In")]), FieldDef("before", "Before"), FieldDef("zlast", "Zlast")]),
     ], {"query": "Q"})
-    doc = Doc([Op("query", "Op", [Field("e"), Field("f", args=[("a", "$a"), ("i", "$i")])], [("a", "E", None), ("i", "In", None)])])
+    doc = Doc([Op("query", "Op", [Field("e"), Field("f", args=[("a", "$a"), ("i", "$i")]), Field("before"), Field("zlast")],
+                  [("a", "E", None), ("i", "In", None)])])
     return schema, doc
 
 
@@ -107,6 +111,9 @@ def run(tier):
             meta.append((m, "debug", s))
             reqs.append({"case": m["case"], "module": "op", "what": "vars", "arg": {"a": s, "i": {"e": s}}})
             meta.append((m, "variables", s))
+        for s2, key in (("B_ONE", "before"), ("B_SIX", "before"), ("Z_ONE", "zlast"), ("Z_TWO", "zlast"), ("B_ONE", "zlast"), (m["values"][0], "before")):
+            reqs.append({"case": m["case"], "module": "op", "what": "resp", "arg": {"e": m["values"][0], key: s2}})
+            meta.append((m, "sibling_enum:" + key, s2))
         for bad in (1, True, None, ["UPPER"], {"a": 1}):
             reqs.append({"case": m["case"], "module": "op", "what": "resp", "arg": {"e": bad}})
             meta.append((m, "non_string", bad))
@@ -127,7 +134,11 @@ def run(tier):
         if not ok:
             rep.violation("string_rejected_by_enum", label, (r or {}).get("err"), m["sigs"])
             continue
-        if pos == "response":
+        if pos.startswith("sibling_enum:"):
+            got = json.loads(r["out"]).get(pos.split(":")[1])
+            if got != s:
+                rep.violation("enum_string_changed", label, {"serialised": got}, m["sigs"])
+        elif pos == "response":
             got = json.loads(r["out"]).get("e")
             if got != s:
                 rep.violation("enum_string_changed", label, {"serialised": got}, m["sigs"])
